@@ -287,9 +287,11 @@ func genPartitionLog(r *Rng, nOps, idUniverse, nvec int, maxLive int) []pOp {
 	var ops []pOp
 	mds := []string{"-", "-", "-", "a=1", "a=2", "a=1,b=x", "b=y", "k=v,z=w", "long=" + strings.Repeat("x", 1+r.Intn(40)),
 		"-", "a=3,c=1", "b=q", "-", "a=", "b=,c=2", "a=,b=", "=emptykey", // empty values (and an empty key) are values like any other: an update with k="" sets k to ""
-		strings.Repeat("K", 255) + "=fits", strings.Repeat("K", 256) + "=refused"}
+		strings.Repeat("K", 255) + "=fits", strings.Repeat("K", 256) + "=refused",
+		// the format's limits are in bytes, not in characters: 127 Cyrillic letters are 254 bytes, 128 are 256
+		strings.Repeat("\u043a", 127) + "=fits", strings.Repeat("\u043a", 128) + "=refused", "name=\u00e9t\u00e9,k=\u4e2d\u6587"}
 	if r.Intn(6) == 0 { // now and then a value at / beyond the 16-bit length field
-		mds = append(mds, "big="+strings.Repeat("v", 65535), "big="+strings.Repeat("v", 65536))
+		mds = append(mds, "big="+strings.Repeat("v", 65535), "big="+strings.Repeat("v", 65536), "big="+strings.Repeat("\u00e9", 32768))
 	}
 	vi := 0
 	nextVec := func() int { v := vi % nvec; vi++; return v }
